@@ -33,7 +33,7 @@ func init() {
 			"(e2e/*) real sender API (UserEvent, Query with node+tag filters, Respond with relay factor 0/1, LocalState) -> wire bytes -> real receiver; the relay hop runs on a third real node; both outcomes of the random relay pick are run. " +
 			"(relay/forward) 120 relay headers (name x IPv4/IPv4-in-16/IPv6/nil x port x zone) x 833 trailing byte strings (every reply encoding, three replies in non-canonical msgpack form, every first byte 0..255 x 3 tails): forwarded packet == trailing bytes exactly and goes to header destination. " +
 			"(tags/*) 407 tag maps (nil, empty, all 1-entry and 2-entry maps over 6 keys x 5 values) x sender version 2..5 x receiver version 2..5 at the codec, and through Create/NodeMeta/NotifyJoin/SetTags/NotifyUpdate into the receiver's member table; (tags/limit) tag maps of 5 shapes whose encoding is 505..520 bytes at every version through Create and SetTags. " +
-			"non-trivial = case with at least one non-zero field / non-empty tag map / encoded length within 8 bytes of the limit",
+			"non-trivial = case with at least one non-zero field / non-empty tag map / encoded length within 8 bytes of the limit; codec/received-values-stay: a query response, user event or query that was decoded and handed to the application is re-read after the next message of that kind (every ordered pair of 10 payloads of length 0..40) has been received",
 		Assumptions: []string{
 			"equivalence: nil and empty byte slices, slices and maps are the same value; everything else must be identical",
 			"protocol < 3 senders carry only tags[\"role\"]: the decoded map must have that role and no other key",
@@ -212,6 +212,7 @@ func c32run(ctx *vc.Ctx) {
 	c32delegate(g)
 	c32e2e(g)
 	c32noAliasing(g)
+	c32receivedStay(g)
 	c32relayConcurrent(ctx)
 }
 
